@@ -277,12 +277,10 @@ class AsyncTLSStreamTransport(AsyncStreamTransport):
         *args: *_T_PosArgs,
     ) -> _T_Return:
         assert _ssl_module is not None, "stdlib ssl module not available"  # nosec assert_used
-        has_waited: bool = False
         while True:
             try:
                 result = ssl_object_method(*args)
             except _ssl_module.SSLWantReadError:
-                has_waited = True
                 try:
                     # Flush any pending writes first
                     # NOTE: Do not wait for the lock if there is nothing to send. A reader must not be held back
@@ -306,7 +304,6 @@ class AsyncTLSStreamTransport(AsyncStreamTransport):
                     self._write_bio.write_eof()
                     raise
             except _ssl_module.SSLWantWriteError:
-                has_waited = True
                 async with self.__transport_send_lock:
                     await self._transport.send_all(self._write_bio.read())
             except _ssl_module.SSLError:
@@ -321,11 +318,6 @@ class AsyncTLSStreamTransport(AsyncStreamTransport):
                     async with self.__transport_send_lock:
                         if self._write_bio.pending:
                             await self._transport.send_all(self._write_bio.read())
-                elif not has_waited:
-                    # The SSL object had everything at hand (e.g. the next of the records already in the read BIO).
-                    # Always be a checkpoint: a task working through a backlog of records must let the other tasks run.
-                    # NOTE: shielded from cancellation. The result (e.g. data already decrypted by read()) would be lost.
-                    await self._transport.backend().cancel_shielded_coro_yield()
 
                 return result
 
